@@ -178,13 +178,14 @@ func (r depResolver) FindDescriptorByName(n protoreflect.FullName) (protoreflect
 // symModel is the reference model: a flat map of names and extension numbers
 // of the files whose import succeeded.
 type symModel struct {
+	pool      *symPoolT
 	committed map[string]bool
 	names     map[string]string // name -> "package" | "symbol"
 	exts      map[[2]string]bool
 }
 
-func newSymModel() *symModel {
-	return &symModel{committed: map[string]bool{}, names: map[string]string{}, exts: map[[2]string]bool{}}
+func newSymModel(pool *symPoolT) *symModel {
+	return &symModel{pool: pool, committed: map[string]bool{}, names: map[string]string{}, exts: map[[2]string]bool{}}
 }
 
 func pkgPrefixes(pkg string) []string {
@@ -203,17 +204,19 @@ func pkgPrefixes(pkg string) []string {
 // tryImport returns whether importing f succeeds in the model, applying it if so.
 // Dependencies are imported first and stay imported even if f then fails.
 func (m *symModel) tryImport(name string) bool {
-	f := symPool[name]
-	for _, p := range pkgPrefixes(f.pkg) {
-		if m.names[p] == "symbol" {
-			return false
-		}
-	}
+	f := m.pool.files[name]
 	if m.committed[name] {
 		return true
 	}
 	for _, d := range f.deps {
 		if !m.tryImport(d) {
+			return false
+		}
+	}
+	// (after the dependencies: one of them may define a symbol that is in the
+	// way of this file's package)
+	for _, p := range pkgPrefixes(f.pkg) {
+		if m.names[p] == "symbol" {
 			return false
 		}
 	}
@@ -261,22 +264,39 @@ type C17Op struct {
 }
 
 type C17Case struct {
-	Ops []C17Op `json:"ops"`
+	Gen []GenSymFile `json:"generated_files,omitempty"`
+	Ops []C17Op      `json:"ops"`
 }
 
 func genC17(t *rapid.T) C17Case {
 	symPoolOnce.Do(buildSymPool)
 	var c C17Case
+	// Two cases in three add generated files to the fixed pool; imports then
+	// prefer the generated ones.
+	if rapid.IntRange(0, 2).Draw(t, "withGen") > 0 {
+		c.Gen = genSymFiles(t)
+	}
+	pool := poolFor(c.Gen)
+	var genNames []string
+	for _, n := range pool.names {
+		if strings.HasPrefix(n, "g") {
+			genNames = append(genNames, n)
+		}
+	}
 	n := rapid.IntRange(2, 12).Draw(t, "nops")
 	for i := 0; i < n; i++ {
 		switch rapid.IntRange(0, 5).Draw(t, "opKind") {
 		case 0:
-			c.Ops = append(c.Ops, C17Op{Kind: "lookup", Name: symUniverse[rapid.IntRange(0, len(symUniverse)-1).Draw(t, "name")]})
+			c.Ops = append(c.Ops, C17Op{Kind: "lookup", Name: pool.universe[rapid.IntRange(0, len(pool.universe)-1).Draw(t, "name")]})
 		case 1:
-			e := extUniverse[rapid.IntRange(0, len(extUniverse)-1).Draw(t, "ext")]
+			e := pool.exts[rapid.IntRange(0, len(pool.exts)-1).Draw(t, "ext")]
 			c.Ops = append(c.Ops, C17Op{Kind: "lookup-ext", Name: e[0], Tag: e[1]})
 		default:
-			c.Ops = append(c.Ops, C17Op{Kind: "import", File: symPoolNames[rapid.IntRange(0, len(symPoolNames)-1).Draw(t, "file")],
+			from := pool.names
+			if len(genNames) > 0 && rapid.IntRange(0, 2).Draw(t, "fromGen") > 0 {
+				from = genNames
+			}
+			c.Ops = append(c.Ops, C17Op{Kind: "import", File: from[rapid.IntRange(0, len(from)-1).Draw(t, "file")],
 				Accept: rapid.IntRange(0, 2).Draw(t, "accept") == 0})
 		}
 	}
@@ -286,19 +306,20 @@ func genC17(t *rapid.T) C17Case {
 func execC17(t *testing.T, c C17Case) *Verdict {
 	symPoolOnce.Do(buildSymPool)
 	syms := &linker.Symbols{}
-	model := newSymModel()
+	pool := poolFor(c.Gen)
+	model := newSymModel(pool)
 	st := sim.S()
 	st.Sample(c, 3)
 	failed := 0
 	compareAll := func(after string) *Verdict {
-		for _, n := range symUniverse {
+		for _, n := range pool.universe {
 			got := syms.Lookup(protoreflect.FullName(n)) != nil
 			want := model.names[n] == "symbol"
 			if got != want {
 				return viol("C17/lookup-disagrees-with-model", "after %s: Lookup(%q) found=%v, but the files whose import succeeded %s it", after, n, got, map[bool]string{true: "define", false: "do not define"}[want])
 			}
 		}
-		for _, e := range extUniverse {
+		for _, e := range pool.exts {
 			var tag int
 			fmt.Sscan(e[1], &tag)
 			got := syms.LookupExtension(protoreflect.FullName(e[0]), protoreflect.FieldNumber(tag)) != nil
@@ -311,7 +332,7 @@ func execC17(t *testing.T, c C17Case) *Verdict {
 	for i, op := range c.Ops {
 		switch op.Kind {
 		case "import":
-			f := symPool[op.File]
+			f := pool.files[op.File]
 			if f == nil {
 				continue
 			}
@@ -338,11 +359,18 @@ func execC17(t *testing.T, c C17Case) *Verdict {
 				// dependencies first (each is an import of another file in its own
 				// right): whatever dependency is visibly there, and could be there,
 				// is taken over into the model.
-				for _, d := range f.deps {
-					if dep := symPool[d]; !model.committed[d] && len(dep.symbols) > 0 && syms.Lookup(protoreflect.FullName(dep.symbols[0])) != nil {
-						model.tryImport(d)
+				// (Dependencies of dependencies first: an import that fails in the
+				// middle of its dependencies has imported the ones before.)
+				var takeOver func(name string)
+				takeOver = func(name string) {
+					for _, d := range pool.files[name].deps {
+						takeOver(d)
+						if dep := pool.files[d]; !model.committed[d] && len(dep.symbols) > 0 && syms.Lookup(protoreflect.FullName(dep.symbols[0])) != nil {
+							model.tryImport(d)
+						}
 					}
 				}
+				takeOver(op.File)
 			}
 			desc := fmt.Sprintf("op %d Import(%s) [err=%v]", i, op.File, err)
 			if err != nil {
